@@ -32,6 +32,12 @@ func languageSweep(r *ev.Run, G *gprops, gs *gstats, vers []int, thorough bool) 
 			}
 		})
 	}
+	r.Phase("pumping", func() { pumping(r, G, gs, vers, thorough) })
+	r.Phase("length boundaries", func() { lengthBoundaries(r, G, gs, vers, thorough) })
+	r.Phase("case variants", func() { caseVariants(r, G, gs, vers) })
+	if G.accept || G.decOn {
+		r.Phase("decoder re-use", func() { reusePhase(r, vers) })
+	}
 	r.Phase("edit ball", func() { editBall(r, G, gs, vers, thorough) })
 	r.Phase("short byte strings", func() {
 		n := 5
@@ -42,7 +48,7 @@ func languageSweep(r *ev.Run, G *gprops, gs *gstats, vers []int, thorough bool) 
 	})
 }
 
-const graphRule = "explicit-state search of the real decoders: a state is the reflective dump of the decoder object after Decode(prefix) plus the decoder's residue (deferred unsupported-metric flag; v2: canonical-order flag); from every expanded state every token of the alphabet (all name:code pairs of the level, invalid values, foreign names, malformed tokens) is appended and the real Decode is run on the whole string; each executed string is judged by the reference recogniser written from the property text; plus stateless sets (all 40,320 base token orders, temporal/environmental placements, v2 group permutations, all token sequences of length <=2/3), character edit balls of radius 1/2 around seed vectors and every byte string of length <=5/6 over a 12-byte alphabet"
+const graphRule = "explicit-state search of the real decoders: a state is the reflective dump of the decoder object after Decode(prefix) plus the decoder's residue (deferred unsupported-metric flag; v2: canonical-order flag); from every expanded state every token of the alphabet (all name:code pairs of the level, invalid values, foreign names, malformed tokens) is appended and the real Decode is run on the whole string; each executed string is judged by the reference recogniser written from the property text; plus stateless sets (all 40,320 base token orders, temporal/environmental placements, v2 group permutations, all token sequences of length <=2/3), character edit balls of radius 1/2 around seed vectors, every byte string of length <=5/6 over a 12-byte alphabet, pumped inputs (a prefix followed by k copies of one token for every k<=300 and around 2^9..2^16), every letter-case variant of every name and code, and second decodes on used decoders (whatever a used decoder accepts must be well-formed and equal a fresh decode)"
 
 func graphAssumptions(r *ev.Run) {
 	r.Assume("reference recogniser mc/internal/lang written from the property texts C07-C11 over the specification tables in mc/internal/spec")
@@ -83,6 +89,7 @@ func init() {
 			permutationsV3(r, G, gs, []int{0, 1, 2}, thorough)
 			permutationsV2(r, G, gs)
 		})
+		r.Phase("decoder re-use", func() { reusePhase(r, []int{3, 2}) })
 		r.Phase("enum", func() {
 			P := noScore
 			P.fields = true
@@ -116,6 +123,7 @@ func init() {
 			permutationsV3(r, G, gs, []int{0, 1, 2}, thorough)
 			permutationsV2(r, G, gs)
 		})
+		r.Phase("decoder re-use", func() { reusePhase(r, []int{3, 2}) })
 		r.Phase("enum", func() {
 			P := noScore
 			P.encode = true
